@@ -52,10 +52,19 @@ func (s Scope) matchFile(rel string) bool {
 	return true
 }
 
-// FuncsIn lists in-scope function declarations sorted by key.
-func (p *Program) FuncsIn(s Scope) []*FuncDecl {
+// FuncsIn lists in-scope function declarations sorted by key (init functions excluded: several per
+// package share one key).
+func (p *Program) FuncsIn(s Scope) []*FuncDecl { return p.funcsIn(s, false) }
+
+// AllFuncsIn also returns init functions (for rules that only scan bodies).
+func (p *Program) AllFuncsIn(s Scope) []*FuncDecl { return p.funcsIn(s, true) }
+
+func (p *Program) funcsIn(s Scope, withInit bool) []*FuncDecl {
 	var out []*FuncDecl
 	for _, fd := range p.Funcs {
+		if !withInit && (fd.Obj.Name() == "init" || fd.Obj.Name() == "_") {
+			continue
+		}
 		if s.matchFile(p.RelFile(fd.Decl.Pos())) && (s.KeyRe == nil || s.KeyRe.MatchString(FuncKey(fd.Obj))) {
 			out = append(out, fd)
 		}
@@ -403,4 +412,40 @@ func readJSON(path string, v any) error {
 		return err
 	}
 	return json.Unmarshal(bs, v)
+}
+
+// CheckIgnoredTry (G7): a call to a Try* function (errgroup.TryGo, Mutex.TryLock, …) whose boolean result
+// is discarded silently skips the work when the attempt fails.
+func (r *Run) CheckIgnoredTry(rule string, scope Scope) {
+	r.Rule(rule, "no ignored attempt: the boolean result of a Try* call (errgroup.TryGo, TryLock, …) is never discarded; a skipped verification goroutine would otherwise go unnoticed")
+	n := 0
+	for _, fd := range r.Prog.FuncsIn(scope) {
+		info := fd.Pkg.TypesInfo
+		ast.Inspect(fd.Decl.Body, func(nd ast.Node) bool {
+			es, ok := nd.(*ast.ExprStmt)
+			if !ok {
+				return true
+			}
+			c, ok := es.X.(*ast.CallExpr)
+			if !ok {
+				return true
+			}
+			var name string
+			switch f := ast.Unparen(c.Fun).(type) {
+			case *ast.SelectorExpr:
+				name = f.Sel.Name
+			case *ast.Ident:
+				name = f.Name
+			}
+			if !strings.HasPrefix(name, "Try") {
+				return true
+			}
+			if t := info.TypeOf(c); t != nil && isBoolType(t) {
+				n++
+				r.Fail(rule, FuncKey(fd.Obj)+" :: "+name, r.Prog.RelPos(c.Pos()), "result of "+name+" is discarded: when the attempt fails the work is silently skipped")
+			}
+			return true
+		})
+	}
+	r.Pass(rule, "all-try-calls", "", fmt.Sprintf("%d discarded Try* results", n))
 }
